@@ -299,15 +299,26 @@ def reject_checks(acc, s, neg):
     x = float(s) * (-1 if neg else 1)
     if hp_double_readings(x):      # the same double also encodes a valid HP value: no requirement
         return
-    for name, fn in (('hp2dec', A.hp2dec), ('HPAngle', A.HPAngle)):
-        acc.count('reject')
-        try:
-            r = fn(x)
-            acc.violation(f'{name}:accepts-invalid', 'reject', f'hp {s}', show(r), 'ValueError', f'{name}({x!r})')
-        except ValueError:
-            pass
-        except Exception as e:  # noqa
-            acc.violation(f'{name}:invalid-wrong-exception', 'reject', f'hp {s}', type(e).__name__, 'ValueError', name)
+    def must_reject(after=''):
+        for name, fn in (('hp2dec', A.hp2dec), ('HPAngle', A.HPAngle)):
+            acc.count('reject')
+            try:
+                r = fn(x)
+                acc.violation(f'{name}:accepts-invalid', 'reject', f'hp {s}', show(r), 'ValueError', f'{after}{name}({x!r})')
+            except ValueError:
+                pass
+            except Exception as e:  # noqa
+                acc.violation(f'{name}:invalid-wrong-exception', 'reject', f'hp {s}', type(e).__name__, 'ValueError', name)
+    must_reject()
+    # the same value after it has passed through the routines that read HP fields WITHOUT validating them (and after its negative):
+    # whether a value is valid HP does not depend on what was called before
+    for pre in (A.hp2dms, A.hp2ddm):
+        for v_ in (x, -x):
+            try:
+                pre(v_)
+            except Exception:  # noqa
+                pass
+    must_reject('after hp2dms / hp2ddm of the same value: ')
 
 
 def ctor_checks(acc, rng):
